@@ -71,7 +71,7 @@ type Pipe struct {
 	Alg       string `json:"alg"`
 	KeyName   string `json:"key_name"`
 	Mask      int    `json:"key_mask"`       // the key: wrap = xor with (mask+i)
-	SlowUs    int    `json:"slow_unwrap_us"` // UnwrapKeyFn sleeps this long
+	SlowUs    int    `json:"slow_unwrap_us"` // UnwrapKeyFn sleeps this long (0: it only yields the processor; < 0: it returns at once)
 	Chunk     int    `json:"read_chunk"`     // reader chunk size for source and document (0 = as large as asked)
 }
 
@@ -148,10 +148,12 @@ func (p Pipe) DecryptDoc(doc []byte) string {
 func (p Pipe) OpenDecrypt(src io.Reader) (io.Reader, error) {
 	return enc.Decrypt(src, enc.DecryptOptions{
 		UnwrapKeyFn: func(w []byte, alg, kn string, nonce, tag []byte) ([]byte, error) {
-			if p.SlowUs > 0 {
+			switch {
+			case p.SlowUs > 0:
 				time.Sleep(time.Duration(p.SlowUs) * time.Microsecond)
-			} else {
+			case p.SlowUs == 0:
 				runtime.Gosched()
+			default: // < 0: the callback returns at once, without a scheduling point
 			}
 			if kn != p.KeyName {
 				return nil, errors.New("unknown key " + kn)
